@@ -35,7 +35,7 @@ LEVEL_NOTE = ("Trusted: transport model, virtual clock.  Requests after a transp
 TECHNIQUE = "deterministic simulation of request histories with scripted per-request fault sequences"
 
 TYPES = ["ok", "drops_ok", "exhaust", "drops_exc", "senderr", "icmp", "rst", "fin", "refused", "drops_sockerr",
-         "stray_frag", "senderr_all", "garbage_ok", "unreach", "drops_unreach"]
+         "stray_frag", "senderr_all", "garbage_ok", "unreach", "drops_unreach", "garbage2"]
 SETTINGS = [(0.5, 1), (1.0, 3), (0.25, 2)]
 SWEEP_LEN = {"quick": 2, "thorough": 3}
 N_RANDOM = {"quick": 25_000, "thorough": 1_000_000}
@@ -217,6 +217,11 @@ def _script(q, tau, r, tr):
         # an invalid datagram/segment in the middle of the wait, then (after the immediate retry on UDP / the
         # rejection on TCP) everything is answered
         return [{"k": "garbage", "n": 12, "seed": 7, "d": tau / 4}], ok, [], None
+    if t == "garbage2":
+        # the first transmission is answered by TWO invalid datagrams back to back (e.g. a duplicated bad answer),
+        # everything after that is lost
+        return [{"k": "multi", "parts": [{"what": "garbage", "n": 11, "seed": 3, "d": tau / 4},
+                                        {"what": "garbage", "n": 11, "seed": 3, "d": tau / 4}]}], drop, [], None
     if t == "unreach":
         return [], ok, [{"k": "unreach", "d": 0.0, "errno": q["errno"]}], None
     if t == "drops_unreach":
